@@ -763,6 +763,13 @@ func (ev *Ev) box(v Value) Value {
 		// boxed composite: injective uninterpreted constructor over the leaves is overkill; use a fresh ref
 		b := ev.u.fresh("boxed", SRef)
 		ev.st.assume(not(app("=", b, "nil"))) // an interface holding a struct or slice value is not nil
+		if v.K == vSlice {
+			// remember length and set view of a boxed slice
+			ev.st.assume(app("=", app(ev.u.declareFun("boxlen", []Sort{SRef}, SInt), b), v.Comp["#len"].T))
+			if sv, ok := v.Comp["#set"]; ok && sv.T != "" {
+				ev.st.assume(app("=", app(ev.u.declareFun(quote("boxset:"+string(sv.S)), []Sort{SRef}, sv.S), b), sv.T))
+			}
+		}
 		return scalar(b, SRef, v.Typ)
 	}
 	if v.K == vAddr {
@@ -789,8 +796,15 @@ func (ev *Ev) unbox(v Value, t types.Type) Value {
 	case SRef:
 		return scalar(v.T, SRef, t)
 	}
-	// composite from interface: fresh
-	return ev.u.freshValue(t, "unboxed", ev.st)
+	// composite from interface: fresh, except that a slice gets back the length and set view recorded when it was boxed
+	fv := ev.u.freshValue(t, "unboxed", ev.st)
+	if fv.K == vSlice {
+		ev.st.assume(implies(not(app("=", v.T, "nil")), app("=", app(ev.u.declareFun("boxlen", []Sort{SRef}, SInt), v.T), fv.Comp["#len"].T)))
+		if sv, ok := fv.Comp["#set"]; ok && sv.T != "" {
+			ev.st.assume(implies(not(app("=", v.T, "nil")), app("=", app(ev.u.declareFun(quote("boxset:"+string(sv.S)), []Sort{SRef}, sv.S), v.T), sv.T)))
+		}
+	}
+	return fv
 }
 
 // coerce converts v for storage into a location/parameter of type t (implicit interface conversion).
@@ -1144,7 +1158,7 @@ func (ev *Ev) lvalue(e ast.Expr) *LValue {
 			}
 			return &LValue{K: lvElem, Ref: base.Comp["#arr"].T, Idx: idx.T, Typ: ut.Elem(), ElemKey: typeKey(ut.Elem())}
 		case *types.Map:
-			idx := ev.coerce(ev.expr(x.Index), ut.Key())
+			idx := ev.mapKey(ev.expr(x.Index), ut.Key())
 			return &LValue{K: lvMapElem, Ref: base.T, Idx: idx.T, IdxS: idx.S, Typ: ut.Elem(), MapTyp: ut, ElemKey: typeKey(bt.Underlying())}
 		case *types.Pointer:
 			// pointer to array
@@ -1526,6 +1540,12 @@ func (ev *Ev) index(x *ast.IndexExpr) Value {
 				ev.boundsCheck(idx, base.Comp["#len"].T, x)
 			}
 			lv = &LValue{K: lvElem, Ref: base.Comp["#arr"].T, Idx: idx.T, Typ: ut.Elem(), ElemKey: typeKey(ut.Elem())}
+				if sv, ok := base.Comp["#set"]; ok && sv.T != "" {
+					rv := ev.readLV(lv)
+					if rv.K == vScalar {
+						ev.st.assume(implies(and(app("<=", "0", idx.T), app("<", idx.T, base.Comp["#len"].T)), app("select", sv.T, rv.T)))
+					}
+				}
 		case *types.Array:
 			idx := ev.expr(x.Index)
 			if !ev.spec {
@@ -1533,7 +1553,7 @@ func (ev *Ev) index(x *ast.IndexExpr) Value {
 			}
 			lv = &LValue{K: lvElem, Ref: base.Comp["#arr"].T, Idx: idx.T, Typ: ut.Elem(), ElemKey: typeKey(ut.Elem())}
 		case *types.Map:
-			idx := ev.coerce(ev.expr(x.Index), ut.Key())
+			idx := ev.mapKey(ev.expr(x.Index), ut.Key())
 			lv = &LValue{K: lvMapElem, Ref: base.T, Idx: idx.T, IdxS: idx.S, Typ: ut.Elem(), MapTyp: ut, ElemKey: typeKey(ut)}
 		}
 		return ev.readLV(lv)
@@ -1607,6 +1627,17 @@ func (ev *Ev) sliceExpr(x *ast.SliceExpr) Value {
 		}
 	}
 	res.Comp["#len"] = intV(app("-", hi, lo))
+	if ss := u.setSortOf(elemT); ss != "" {
+		if hi == "0" {
+			res = u.withSet(res, u.emptySet(ss))
+		} else {
+			ns := u.fresh("set", ss)
+			ks, _, _ := ss.isArray()
+			ev.st.assume(fmt.Sprintf("(forall ((x %s)) (! (=> (select %s x) (select %s x)) :pattern ((select %s x))))", ks, ns, u.setOf(base), ns))
+			ev.st.assume(implies(and(app("=", lo, "0"), app("=", hi, length)), app("=", ns, u.setOf(base))))
+			res = u.withSet(res, ns)
+		}
+	}
 	if lo == "0" {
 		res.Comp["#arr"] = base.Comp["#arr"]
 		return res
@@ -1672,12 +1703,17 @@ func (ev *Ev) compositeLit(x *ast.CompositeLit, addr bool) Value {
 		}
 		arr := u.allocRef(ev.st, "arr")
 		n := 0
+		var litElems []string
 		for _, el := range x.Elts {
 			val := el
 			if kv, ok := el.(*ast.KeyValueExpr); ok {
 				val = kv.Value
 			}
-			ev.assignLV(&LValue{K: lvElem, Ref: arr, Idx: fmt.Sprint(n), Typ: elemT, ElemKey: typeKey(elemT)}, ev.exprWithType(val, elemT))
+			evv := ev.coerce(ev.exprWithType(val, elemT), elemT)
+			if evv.K == vScalar {
+				litElems = append(litElems, evv.T)
+			}
+			ev.assignLV(&LValue{K: lvElem, Ref: arr, Idx: fmt.Sprint(n), Typ: elemT, ElemKey: typeKey(elemT)}, evv)
 			n++
 		}
 		ln := fmt.Sprint(n)
@@ -1685,12 +1721,19 @@ func (ev *Ev) compositeLit(x *ast.CompositeLit, addr bool) Value {
 			ln = fmt.Sprint(a.Len())
 		}
 		v = Value{K: vSlice, Typ: t, Comp: map[string]Value{"#arr": scalar(arr, SRef, nil), "#len": intV(ln)}}
+		if ss := u.setSortOf(elemT); ss != "" {
+			set := u.emptySet(ss)
+			for _, ev0 := range litElems {
+				set = app("store", set, ev0, "true")
+			}
+			v = u.withSet(v, set)
+		}
 	case *types.Map:
 		m := u.allocRef(ev.st, "map")
 		ev.initEmptyMap(ut, m)
 		for _, el := range x.Elts {
 			kv := el.(*ast.KeyValueExpr)
-			k := ev.coerce(ev.expr(kv.Key), ut.Key())
+			k := ev.mapKey(ev.expr(kv.Key), ut.Key())
 			ev.assignLV(&LValue{K: lvMapElem, Ref: m, Idx: k.T, IdxS: k.S, Typ: ut.Elem(), MapTyp: ut, ElemKey: typeKey(ut)}, ev.exprWithType(kv.Value, ut.Elem()))
 		}
 		v = scalar(m, SRef, t)
@@ -1757,4 +1800,40 @@ func (u *Unit) assumeAllocated(st *State, v Value) {
 			st.assume(or(app("=", l.T, "nil"), app("select", u.fam(st, "alloc", as), l.T)))
 		}
 	})
+}
+
+// mapKey converts a map key to the scalar used to index the map's arrays: scalars as they are, struct keys through an
+// injective constructor over their fields (Go compares struct keys field by field).
+func (ev *Ev) mapKey(v Value, kt types.Type) Value {
+	v = ev.coerce(v, kt)
+	if v.K == vScalar {
+		return v
+	}
+	if v.K == vStruct {
+		var sorts []Sort
+		var ts []string
+		walkValue(v, "", func(path string, l Value) {
+			sorts = append(sorts, l.S)
+			ts = append(ts, l.T)
+		})
+		name := quote("mkkey:" + typeKey(kt))
+		f := ev.u.declareFun(name, sorts, SRef)
+		key := "mkkeyax:" + typeKey(kt)
+		if !ev.u.declared[key] && len(sorts) > 0 {
+			ev.u.declared[key] = true
+			// injectivity
+			var d1, d2, a1, a2, eqs []string
+			for i, s := range sorts {
+				d1 = append(d1, fmt.Sprintf("(a%d %s)", i, s))
+				d2 = append(d2, fmt.Sprintf("(b%d %s)", i, s))
+				a1 = append(a1, fmt.Sprintf("a%d", i))
+				a2 = append(a2, fmt.Sprintf("b%d", i))
+				eqs = append(eqs, fmt.Sprintf("(= a%d b%d)", i, i))
+			}
+			ev.u.axioms = append(ev.u.axioms, fmt.Sprintf("(forall (%s %s) (! (=> (= (%s %s) (%s %s)) %s) :pattern ((%s %s) (%s %s))))",
+				strings.Join(d1, " "), strings.Join(d2, " "), name, strings.Join(a1, " "), name, strings.Join(a2, " "), and(eqs...), name, strings.Join(a1, " "), name, strings.Join(a2, " ")))
+		}
+		return scalar(app(f, ts...), SRef, kt)
+	}
+	return scalar(ev.u.fresh("key", SRef), SRef, kt)
 }
